@@ -56,7 +56,7 @@ M = [
  ("C12","delete-never-fails","interpreter/nativeFunctionObject.go","\tif _, exists := object[key]; exists {\n\t\tdelete(object, key)\n\t} else {\n\t\treturn nil, fmt.Errorf(\"key '%s' not found in object\", key)\n\t}","\tdelete(object, key)"),
  ("C12","property-write-copies-map","interpreter/interpreter.go","\t\tpropertyName := e.Property.Lexeme\n\t\tobject[propertyName] = newValue","\t\tpropertyName := e.Property.Lexeme\n\t\tif len(object) >= 3 {\n\t\t\tcopied := make(map[string]interface{}, len(object)+1)\n\t\t\tfor k, v := range object {\n\t\t\t\tcopied[k] = v\n\t\t\t}\n\t\t\tobject = copied\n\t\t}\n\t\tobject[propertyName] = newValue"),
  ("C13","keys-in-map-order","interpreter/nativeFunctionObject.go","\tfor _, key := range sortedKeys(object) {\n\t\tkeys = append(keys, key)\n\t}","\tfor key := range object {\n\t\tkeys = append(keys, key)\n\t}"),
- ("C13","literal-initialisers-in-map-order","interpreter/interpreter.go","\t\tfor _, key := range e.Keys {\n\t\t\tvalue, signal := i.eval(e.Properties[key], env, isRepl)","\t\tfor key := range e.Properties {\n\t\t\tvalue, signal := i.eval(e.Properties[key], env, isRepl)"),
+ ("C13","literal-initialisers-in-map-order","interpreter/interpreter.go","\t\tfor n, key := range e.Keys {\n\t\t\tvalue, signal := i.eval(e.Values[n], env, isRepl)","\t\tfor key := range e.Properties {\n\t\t\tvalue, signal := i.eval(e.Properties[key], env, isRepl)"),
  ("C14","arguments-right-to-left","interpreter/interpreter.go","\t\tfor _, arg := range e.Arguments {\n\t\t\targValue, signal := i.eval(arg, env, isRepl)\n\t\t\tif signal.Type != ControlFlowNone {\n\t\t\t\treturn nil, signal\n\t\t\t}\n\t\t\targuments = append(arguments, argValue)\n\t\t}","\t\targuments = make([]interface{}, len(e.Arguments))\n\t\tfor k := len(e.Arguments) - 1; k >= 0; k-- {\n\t\t\targValue, signal := i.eval(e.Arguments[k], env, isRepl)\n\t\t\tif signal.Type != ControlFlowNone {\n\t\t\t\treturn nil, signal\n\t\t\t}\n\t\t\targuments[k] = argValue\n\t\t}"),
  ("C14","or-returns-boolean","interpreter/interpreter.go","\t\t\tif isTruthy(left) {\n\t\t\t\treturn left, &ControlFlowSignal","\t\t\tif isTruthy(left) {\n\t\t\t\treturn true, &ControlFlowSignal"),
  ("C14","binary-right-before-left","interpreter/interpreter.go","\t\tleft, signal := i.eval(e.Left, env, isRepl)\n\t\tif signal.Type != ControlFlowNone {\n\t\t\treturn nil, signal\n\t\t}\n\t\tif utils.HadRuntimeError {\n\t\t\treturn nil, &ControlFlowSignal{Type: ControlFlowNone, LineNumber: 0}\n\t\t}\n\t\tright, signal := i.eval(e.Right, env, isRepl)","\t\tright, signal := i.eval(e.Right, env, isRepl)\n\t\tif signal.Type != ControlFlowNone {\n\t\t\treturn nil, signal\n\t\t}\n\t\tif utils.HadRuntimeError {\n\t\t\treturn nil, &ControlFlowSignal{Type: ControlFlowNone, LineNumber: 0}\n\t\t}\n\t\tleft, signal := i.eval(e.Left, env, isRepl)"),
